@@ -39,7 +39,9 @@ payloads = st.one_of(
     st.binary(min_size=90, max_size=300),
 )
 ann_ids = st.one_of(st.sampled_from(["CORR", "STRM", "BLBI", "\0\0\0\0", "    ", "a\0b\x7f", "HMAC", "XXXX"]),
-                    st.text(alphabet=st.characters(min_codepoint=0, max_codepoint=127), min_size=4, max_size=4))
+                    st.text(alphabet=st.characters(min_codepoint=0, max_codepoint=127), min_size=4, max_size=4),
+                    # four LETTERS that are not four ascii characters: the sender must refuse them (or carry them exactly)
+                    st.sampled_from(["K\u00e4se", "\u00e4\u00f6\u00fc\u00df", "\u65e5\u672c\u8a9e\u6587", "ab\u00e9c", "\u20acuro", "CO\u00aeR", "STR\u039c"]))
 ann_vals = st.tuples(st.one_of(st.just(b""), st.binary(max_size=30), st.binary(min_size=100, max_size=200)),
                      st.sampled_from(["bytes", "bytearray", "memoryview", "memoryview:H", "memoryview:I", "memoryview:2d", "memoryview:array"]))
 annotations = st.lists(st.tuples(ann_ids, ann_vals), max_size=5, unique_by=lambda t: t[0]).map(
@@ -184,6 +186,8 @@ def run_rt(case):
     try:
         enc = [_encode(m, case["compress"]) for m in msgs]
     except Exception as x:
+        if any(not k.isascii() for m in msgs for k, _v, _t in m["ann"]):
+            return V        # an annotation id outside ascii is not "4 ascii letters": refusing it is the sender's right
         viol("rt:encode-raises", "sender refuses a buildable message: %r" % (x,))
         return V
     datas = [bytes(e.data) for e in enc]
@@ -266,7 +270,7 @@ def build_bytes(case):
     if "raw" in case:
         return bytes(case["raw"])
     b = case["base"]
-    anns = [(k.encode("ascii"), v) for k, v in b["ann"]]
+    anns = [((k.encode("utf-8") + b"????")[:4], v) for k, v in b["ann"]]      # (the byte level knows four BYTES per id, whatever they spell)
     kw = {}
     raw = None
     post = []
